@@ -210,6 +210,7 @@ async fn spawn(engine: nu::Engine, store: Store, task: GeneratorTask) {
         let topic = task.topic.clone();
         let options = ReadOptions::builder()
             .follow(FollowOption::On)
+            .context_id(task.context_id)
             .last_id(start.id)
             .build();
         let rx = store.read(options).await;
